@@ -265,7 +265,7 @@ Definition shift_info (d : Z) (si : sinfo) : sinfo :=
 Lemma first_map_shift : forall ms d a,
   first_map (map (shift_map d) ms) (a + d) = option_map (shift_map d) (first_map ms a).
 Proof.
-  induction ms as [|m r IH]; intros d a; cbn; auto.
+  induction ms as [|m r IH]; intros d a; cbn; auto. unfold map_contains.
   replace (m_start m + d <=? a + d) with (m_start m <=? a) by (apply eq_true_iff_eq; rewrite !Z.leb_le; lia).
   replace (a + d <? m_end m + d) with (a <? m_end m) by (apply eq_true_iff_eq; rewrite !Z.ltb_lt; lia).
   destruct ((m_start m <=? a) && (a <? m_end m)); auto.
@@ -306,7 +306,7 @@ Qed.
 
 Lemma first_map_spec : forall ms a m, first_map ms a = Some m -> In m ms /\ m_start m <= a < m_end m.
 Proof.
-  induction ms as [|x r IH]; intros a m H; cbn in H; [discriminate|].
+  induction ms as [|x r IH]; intros a m H; cbn in H; [discriminate|]. unfold map_contains in H.
   destruct ((m_start x <=? a) && (a <? m_end x)) eqn:E.
   - inversion H; subst. apply andb_prop in E. split; [now left | lia].
   - destruct (IH _ _ H). split; [now right | auto].
